@@ -43,4 +43,10 @@ def handleHasCyclic (args : List String) : String :=
   | some ids, some pids => showOB (has_cyclic (ids.length + 2) (ids, pids))
   | _, _ => "bad-args"
 
+/-- `gbifurcate excl=0|1 ids=.. pids=..` → answer of the GENERATED `is_bifurcate` -/
+def handleBifurcate (args : List String) : String :=
+  match Proto.argInts args "ids", Proto.argInts args "pids" with
+  | some ids, some pids => showOB (is_bifurcate (ids, pids) (Proto.argNat args "excl" = some 1))
+  | _, _ => "bad-args"
+
 end AlgoRun
